@@ -8,7 +8,7 @@ ID = "C05"
 LEAN_MODULES = ["LexVerif.Props.C05", "LexVerif.Props.C01Slow", "LexVerif.Props.RoundNE", "LexVerif.Props.TablesParse", "LexVerif.Props.Literals.ParseFloatParse", "LexVerif.Props.Literals.ParseFloatNumber", "LexVerif.Props.Literals.ParseFloatLemire", "LexVerif.Props.Literals.ParseFloatBellerophon", "LexVerif.Props.Literals.ParseFloatSlow", "LexVerif.Props.Literals.ParseFloatBigint", "LexVerif.Props.Literals.ParseFloatShared", "LexVerif.Props.Literals.ParseFloatFloat", "LexVerif.Props.Literals.ParseFloatMask", "LexVerif.Props.Literals.ParseFloatLimits", "LexVerif.Props.Literals.ParseIntegerAlgorithm", "LexVerif.Props.Literals.UtilDigit", "LexVerif.Props.Literals.UtilStep", "LexVerif.Props.Literals.ParseFloatBinary", "LexVerif.Props.LiteralsModel"]
 GEN = ["parse_tables", "literals"]
 TRUSTED = TRUSTED_BASE + [
-    "of the big-integer slow paths digit_comp (even radices) IS proved on its Lean model under the bracket precondition (Props/C01Slow.lean; open: truncation_invariant), byte_comp (odd radices) is modelled (limbs) but NOT proved; proved: the oracle, the per-radix tables, "
+    "of the big-integer slow paths digit_comp (even radices) IS proved on its Lean model under the bracket precondition (Props/C01Slow.lean; truncation_invariant_proved and slow_radix_correct_full_proved: the whole digit string, any number of digits, every radix with a digit limit), byte_comp (odd radices) is modelled (limbs) but NOT proved; proved: the oracle, the per-radix tables, "
     "the fast path for every radix, the complete power-of-two path (binary, slow_binary) and Bellerophon for all 29 generic radices on their Lean models; "
     "the slow paths are compared with the oracle on per-radix number-theoretic worst cases",
     "IEEE assumption of the fast path: u64->float conversion, float * and / are correctly rounded",
